@@ -163,7 +163,7 @@ def gen_case(st, i, tier="quick", op=None, max_dim=None):
     if sweep:
         case["sweep"] = True
     prng = st["pair"]
-    if op in PAIRABLE and prng.random() < 0.25:
+    if op in PAIRABLE and prng.random() < (0.6 if op in ("perlin", "generate_terrain") else 0.25):
         # a second call of the same op on the same Dask rasters with its own parameters; both lazy
         # results are then computed by ONE dask.compute (one merged graph, one schedule)
         case["pair"] = {"params": draw_params(op, prng, H, W, tier)}
